@@ -61,6 +61,24 @@ structure Params where
   cloneMissing : List String
   deriving DecidableEq, Repr
 
+/-! ### parameters justified by the translation tie
+
+`Config.supportedVersions`, `Config.mutualVersion`, `supportedVersionsFromMax`, `negotiateALPN` and
+`checkALPN` of both stacks are TRANSLATED to Lean on every run (`Gotlcp.Src.{tlcp,dtlcp}[.neg]`), and
+`Gotlcp.Tie.Negotiate` proves, for all inputs, that the translated text computes exactly the functions
+below instantiated with the two literals that follow.  They are therefore NOT read from text-matching
+facts: a semantic change of those Go functions breaks a tie proof, a renaming or an equivalent
+re-arrangement breaks nothing. -/
+
+/-- the `supportedVersions` table of this tree (`tie_versions_table_*`) -/
+def treeVersions : List Nat := [0x0101]
+
+/-- `negotiateALPN(a, b)` walks its FIRST argument in the outer loop, returns the first entry of `a`
+that `b` contains, and applies the fallback rule with `a`'s entry "h2" and `b`'s entry "http/1.1"
+(`tie_negotiateALPN_*`).  Which list the caller passes first is a fact about the untranslated
+`processClientHello` (`Facts.*.negAlpnCallServerFirst`). -/
+def treeAlpnOuterIsFirstArg : Bool := true
+
 inductive Failure where
   | clientNoVersion      -- makeClientHello: no supported versions
   | version              -- server: client offered only unsupported versions
